@@ -249,6 +249,11 @@ class Decls:
             else:
                 t = gen_tree(rng, self, 2)
             rt = resolve(self, t)
+            if rt == ("S", "_IO_FILE"):
+                # `typedef FILE a; typedef a b;` makes emit_python_code fail an assertion (recompiler.py:278);
+                # that is not this property's subject
+                t = ("*", t)
+                rt = resolve(self, t)
             if not tree_ok(self, rt) and not (rt[0] == "F" and tree_ok(self, ("*", rt))):
                 t = rt = ("P", "int")
             self.lines.append("typedef %s;" % c_decl(t, nm))
@@ -267,9 +272,14 @@ class Decls:
             ls.append("td %s %s" % (hx(nm), " ".join(tree_words(t))))
         return ls
 
-    def agg_tag_of_cname(self, kind, cname):
+    def agg_tag_of_cname(self, kind, cname, alias=False):
         if cname == "FILE":
             return "_IO_FILE"
+        if alias:
+            # cparser: the first typedef that is directly `struct X` / `union X` / `enum X` forces its name on X
+            for nm, t in self.typedefs:
+                if nm == cname and t[0] == kind and not t[1].startswith("$"):
+                    return t[1]
         if kind == "E":
             for tag, cn in self.enums:
                 if cn == cname:
@@ -606,9 +616,9 @@ def gen_strings(rng, d, n):
 
 FIXED = ["int", "long((*))", "unsigned const short", "long const double", "double const _Complex", "const *",
          "long signed signed", "int(const *)", "int[const 3]", "uint64_t(*)) (", "int x, int y", "int(*)(...)",
-         "int[0x]", "int[08]", "int[1x5]", "int[9223372036854775807]", "int[9223372036854775808]",
+         "int[0x]", "int[08]", "int[1x5]", "char[9223372036854775807]", "int[9223372036854775808]",
          "char[18446744073709551616]", "int[0b1]", "int[]", "int[][3]", "int[3][]", "void[2]", "int(*)(void, int)",
-         "int(*)(int)(int)", "int(int)", "int(*(*)[3])(int, ...)", "struct _IO_FILE *", "FILE", "bool *",
+         "int(*)(int)(int)", "int(int)", "int(*(*)[3])(int, ...)", "FILE", "bool *",
          "int(__stdcall *)(int)", "int(__cdecl *)(int)", "int __stdcall(*)(int)", "int(__stdcall *)",
          "int (*)(int, ...)", "void(*)(int[5])", "void(*)(int(int))", "long long long", "short long", "unsigned float",
          "float _Complex", "_Complex float", "long double _Complex", "int *[3]", "int (*[3])[4]", "int(*volatile const)",
@@ -663,8 +673,24 @@ def make_ffis(ctx, cdef):
     return fi, m.ffi
 
 
-def ctype_tree(ct, d, depth=0):
-    """Tree of a real ctype by introspection (kind, item, length, args, result, ellipsis, cname of leaves)."""
+def real_ellipsis(ct):
+    """`ct.ellipsis` answers True whenever no libffi cif could be prepared (union/complex arguments); read the
+    name instead: the parameter list follows the name position."""
+    import _cffi_backend
+    nm = _cffi_backend.getcname(ct, "&")
+    i = nm.index("&")
+    if nm[i + 1:i + 3] != ")(":
+        raise InfraError("unexpected function type name %r" % nm)
+    depth, j = 1, i + 3
+    while depth:
+        depth += {"(": 1, ")": -1}.get(nm[j], 0)
+        j += 1
+    return nm[i + 3:j - 1].endswith("...")
+
+
+def ctype_tree(ct, d, depth=0, alias=False):
+    """Tree of a real ctype by introspection (kind, item, length, args, result, ellipsis, cname of leaves).
+    alias=True: an aggregate named after the typedef that the in-line FFI forces on it is mapped to its tag."""
     if depth > 60:
         raise InfraError("ctype nesting too deep")
     k = ct.kind
@@ -673,18 +699,15 @@ def ctype_tree(ct, d, depth=0):
     if k == "void":
         return ("P", "void")
     if k == "pointer":
-        return ("*", ctype_tree(ct.item, d, depth + 1))
+        return ("*", ctype_tree(ct.item, d, depth + 1, alias))
     if k == "array":
-        return ("A", ct.length, ctype_tree(ct.item, d, depth + 1))
-    if k == "struct":
-        return ("S", d.agg_tag_of_cname("S", ct.cname) if d else ct.cname)
-    if k == "union":
-        return ("U", d.agg_tag_of_cname("U", ct.cname) if d else ct.cname)
-    if k == "enum":
-        return ("E", d.agg_tag_of_cname("E", ct.cname) if d else ct.cname)
+        return ("A", ct.length, ctype_tree(ct.item, d, depth + 1, alias))
+    if k in ("struct", "union", "enum"):
+        kk = {"struct": "S", "union": "U", "enum": "E"}[k]
+        return (kk, d.agg_tag_of_cname(kk, ct.cname, alias) if d else ct.cname)
     if k == "function":
-        return ("*", ("F", [ctype_tree(a, d, depth + 1) for a in ct.args], ctype_tree(ct.result, d, depth + 1),
-                      bool(ct.ellipsis)))
+        return ("*", ("F", [ctype_tree(a, d, depth + 1, alias) for a in ct.args],
+                      ctype_tree(ct.result, d, depth + 1, alias), real_ellipsis(ct)))
     raise InfraError("unknown ctype kind %r" % (k,))
 
 
@@ -727,83 +750,132 @@ def toks_of(s):
 MODS = ("short", "long", "signed", "unsigned")
 SPEC = MODS + ("int", "char", "double", "float", "void", "_Bool", "_Complex")
 QUAL = ("const", "volatile")
+ABI = ("__cdecl", "__stdcall")
+IDENT_RE = re.compile(r"[A-Za-z_$][A-Za-z0-9_$]*$")
 
 
-def _repair_nested_grouping(toks):
-    """`( ( X ) )` -> `( X )` when the outer pair contains exactly the inner pair."""
-    match = {}
-    st = []
+def _pairs(toks):
+    match, st = {}, []
     for i, t in enumerate(toks):
         if t == "(":
             st.append(i)
         elif t == ")" and st:
             match[st.pop()] = i
-    for i, t in enumerate(toks):
-        if t == "(" and i + 1 < len(toks) and toks[i + 1] == "(" and i in match and (i + 1) in match \
-                and match[i + 1] == match[i] - 1:
-            j = match[i]
-            return toks[:i] + toks[i + 1:j] + toks[j + 1:]
-    return None
+    return match
 
 
-def _repair_qual_between(toks):
-    """move a qualifier standing after a short/long/signed/unsigned modifier and before another specifier to the
-    front of the specifier run"""
+def _rep_nested_grouping(toks, d):
+    """remove a parenthesis pair whose content (after calling-convention keywords) starts with `(`"""
+    out = []
+    for i, j in sorted(_pairs(toks).items()):
+        k = i + 1
+        while k < j and toks[k] in ABI:
+            k += 1
+        if k < j and toks[k] == "(":
+            out.append(toks[:i] + toks[i + 1:j] + toks[j + 1:])
+    return out
+
+
+def _rep_qual_between(toks, d):
+    """move qualifiers standing between two specifiers to the front of the specifier run"""
     for i, t in enumerate(toks):
         if t in QUAL and i > 0:
             j = i
-            while j > 0 and (toks[j - 1] in QUAL):
+            while j > 0 and toks[j - 1] in QUAL:
                 j -= 1
-            if j > 0 and toks[j - 1] in MODS:
-                k = i
-                while k + 1 < len(toks) and toks[k + 1] in QUAL:
-                    k += 1
-                if k + 1 < len(toks) and toks[k + 1] in SPEC:
-                    # start of the specifier run
+            k = i
+            while k + 1 < len(toks) and toks[k + 1] in QUAL:
+                k += 1
+            if j > 0 and k + 1 < len(toks):
+                prev, nxt = toks[j - 1], toks[k + 1]
+                if (prev in MODS and nxt in SPEC) or (prev in ("float", "double") and nxt == "_Complex"):
                     b = j - 1
                     while b > 0 and (toks[b - 1] in SPEC or toks[b - 1] in QUAL):
                         b -= 1
-                    return toks[:b] + toks[j:k + 1] + toks[b:j] + toks[k + 1:]
-    return None
+                    return [toks[:b] + toks[j:k + 1] + toks[b:j] + toks[k + 1:]]
+    return []
 
 
-def _repair_implicit_int(toks):
-    """insert `int` where a declaration has qualifiers but no type specifier: at the start of the string, after `(`
-    or `,`, a run of qualifiers followed by `*`, `)`, `,`, `[`, `(` or the end"""
-    i = 0
+def _is_type_name(t, d):
+    return (t in KEYWORDS or t in PRIM_SPECS or t in ("FILE", "bool")
+            or any(t == nm for nm, _ in d.typedefs))
+
+
+def _implicit_int_sites(toks, d):
+    """qualifiers at the start of a declaration that are not followed by a type specifier"""
     n = len(toks)
-    while i < n:
+    for i in range(n):
         if (i == 0 or toks[i - 1] in ("(", ",")) and toks[i] in QUAL:
             j = i
             while j < n and toks[j] in QUAL:
                 j += 1
-            if j == n or toks[j] in ("*", ")", ",", "[", "("):
-                # `( const * )` right after a declarator-less base is a grouping for the C parser;
-                # the Python parser reads a parameter list
-                return toks[:j] + ["int"] + toks[j:]
-        i += 1
-    return None
+            if j == n or toks[j] in ("*", ")", ",", "[", "(") or \
+                    (IDENT_RE.match(toks[j]) and not _is_type_name(toks[j], d)):
+                yield i, j
 
 
-def _repair_repeated_sign(toks):
-    for i in range(len(toks) - 1):
-        if toks[i] in ("signed", "unsigned"):
-            j = i + 1
-            while j < len(toks) and (toks[j] in SPEC or toks[j] in QUAL):
-                if toks[j] == toks[i]:
-                    return toks[:j] + toks[j + 1:]
+def _rep_qual_first_group(toks, d):
+    """`T ( const …` : an opening parenthesis that is the first one of its declarator and is followed by a qualifier is
+    a grouping parenthesis for the C parser, the start of a parameter list for pycparser"""
+    out = []
+    for i, j in _implicit_int_sites(toks, d):
+        if i >= 2 and toks[i - 1] == "(" and toks[i - 2] not in ("(", ",", ")", "]"):
+            out.append(toks[:i] + ["int"] + toks[i:])          # `(int const *`
+    for i in range(2, len(toks)):
+        if toks[i - 1] == "(" and toks[i - 2] not in ("(", ",", ")", "]") and toks[i] in QUAL:
+            j = i
+            while j < len(toks) and toks[j] in QUAL:
                 j += 1
-    return None
+            k = j
+            while k < len(toks) and (toks[k] in SPEC or toks[k] in ("struct", "union", "enum")
+                                     or (k > j and toks[k - 1] in ("struct", "union", "enum"))
+                                     or (k == j and _is_type_name(toks[k], d))):
+                k += 1
+            if k > j:
+                out.append(toks[:i] + toks[j:k] + toks[i:j] + toks[k:])   # specifiers first, then the qualifiers
+    return out
 
 
-def _repair_qual_in_brackets(toks):
+def _rep_implicit_int(toks, d):
+    out = []
+    for i, j in _implicit_int_sites(toks, d):
+        out.append(toks[:j] + ["int"] + toks[j:])
+        out.append(toks[:i] + ["int"] + toks[i:])
+    return out
+
+
+def _rep_signed_ignored(toks, d):
+    """cparser.py drops `signed` prefixes before it looks at the rest: a repeated `signed`, or `signed` next to
+    `unsigned`, is accepted in-line"""
+    out = []
+    i = 0
+    while i < len(toks):
+        if toks[i] in SPEC or toks[i] in QUAL:
+            j = i
+            while j < len(toks) and (toks[j] in SPEC or toks[j] in QUAL):
+                j += 1
+            run = range(i, j)
+            signs = [k for k in run if toks[k] in ("signed", "unsigned")]
+            idx = [k for k in run if toks[k] == "signed"][:4]
+            odd = any(toks[k] in ("double", "float", "void", "_Bool", "_Complex") for k in run)
+            if (len(signs) >= 2 or odd) and idx:
+                for mask in range(1, 1 << len(idx)):
+                    drop = set(idx[b] for b in range(len(idx)) if mask >> b & 1)
+                    out.append([t for k, t in enumerate(toks) if k not in drop])
+            i = j
+        else:
+            i += 1
+    return out
+
+
+def _rep_qual_in_brackets(toks, d):
     for i in range(len(toks) - 1):
         if toks[i] == "[" and toks[i + 1] in QUAL + ("static",):
-            return toks[:i + 1] + toks[i + 2:]
-    return None
+            return [toks[:i + 1] + toks[i + 2:]]
+    return []
 
 
-def _repair_trailing(toks):
+def _rep_trailing(toks, d):
     """cut at the first unbalanced `)` or top-level `,`"""
     depth = 0
     for i, t in enumerate(toks):
@@ -811,52 +883,213 @@ def _repair_trailing(toks):
             depth += 1
         elif t in ")]":
             if depth == 0:
-                return toks[:i] if i > 0 else None
+                return [toks[:i]] if i > 0 else []
             depth -= 1
         elif t == "," and depth == 0:
-            return toks[:i] if i > 0 else None
-    return None
+            return [toks[:i]] if i > 0 else []
+    return []
 
 
-# class name -> (reference parser whose reading the repair preserves, repair)
+def _rep_ellipsis_only(toks, d):
+    for i in range(len(toks) - 2):
+        if toks[i] == "(" and toks[i + 1] == "..." and toks[i + 2] == ")":
+            return [toks[:i + 1] + ["int", ","] + toks[i + 1:]]
+    return []
+
+
+def _rep_ellipsis_as_name(toks, d):
+    """`...` becomes the identifier __dotdotdot__ for pycparser: where a declarator name may stand it is a parameter name"""
+    out = []
+    for i, t in enumerate(toks):
+        if t == "...":
+            b = i
+            while b > 0 and toks[b - 1] in ("int", "long", "short", "signed", "unsigned", "char", "double", "float"):
+                b -= 1          # cparser turns `long ...` into the identifier __dotdotdotint__
+            if b > 0 and toks[b - 1] not in (",", "("):
+                out.append(toks[:b] + toks[i + 1:])
+            if b < i and i > 0:
+                out.append(toks[:i] + toks[i + 1:])
+    return out
+
+
+def _rep_binary_literal(toks, d):
+    for i, t in enumerate(toks):
+        if re.match(r"0[bB][01]+$", t):
+            return [toks[:i] + [str(int(t[2:], 2))] + toks[i + 1:]]
+    return []
+
+
+def _rep_abi(toks, d):
+    if any(t in ABI for t in toks):
+        return [[t for t in toks if t not in ABI]]
+    return []
+
+
+def _rep_paren_name(toks, d):
+    """parentheses around a declarator that starts with its name: `int (x)`, `int (x[2])[3]`"""
+    out = []
+    for i, j in sorted(_pairs(toks).items()):
+        if i > 0 and i + 1 < j and IDENT_RE.match(toks[i + 1]) and not _is_type_name(toks[i + 1], d) \
+                and toks[i - 1] not in ("(", ","):
+            out.append(toks[:i] + toks[i + 1:j] + toks[j + 1:])
+    return out
+
+
+def _rep_typedef_as_name(toks, d):
+    """the C parser takes any identifier after the specifiers as the variable name, pycparser does not accept a
+    typedef name there"""
+    names = [nm for nm, _ in d.typedefs] + list(PRIM_SPECS) + ["FILE", "bool"]
+    return [toks[:i] + ["zz9_"] + toks[i + 1:] for i, t in enumerate(toks)
+            if i > 0 and t in names and IDENT_RE.match(t) and t not in KEYWORDS]
+
+
+def _rep_qualified_void(toks, d):
+    """`(const void)`: only the unqualified `(void)` is an empty parameter list for the C parser"""
+    for i, j in sorted(_pairs(toks).items()):
+        inner = toks[i + 1:j]
+        if "void" in inner and len(inner) > 1 and all(t in QUAL or t == "void" for t in inner) \
+                and inner.count("void") == 1:
+            return [toks[:i + 1] + ["void"] + toks[j:]]
+    return []
+
+
+def _rep_no_specifier(toks, d):
+    """a string that starts with its declarator: pycparser assumes int"""
+    if toks and (toks[0] in ("*", "(", "[") or toks[0] in ABI):
+        return [["int"] + toks]
+    return []
+
+
+def _rep_function_typedef_param(toks, d):
+    """a parameter declared with a bare function typedef: pycparser's front end adjusts it to a pointer, the C
+    parser only adjusts function declarators it sees itself"""
+    fnames = [nm for nm, t in d.typedefs if t[0] == "F"]
+    out = []
+    for i, t in enumerate(toks):
+        if t in fnames:
+            b = i
+            while b > 0 and toks[b - 1] in QUAL:
+                b -= 1
+            e = i + 1
+            while e < len(toks) and toks[e] in QUAL:
+                e += 1
+            if e < len(toks) and IDENT_RE.match(toks[e]) and toks[e] not in KEYWORDS:
+                e += 1
+            if b > 0 and toks[b - 1] in ("(", ",") and e < len(toks) and toks[e] in (",", ")"):
+                out.append(toks[:i + 1] + ["*"] + toks[i + 1:])
+    return out
+
+
+def undeclared_tags(toks, d):
+    res = []
+    for i in range(len(toks) - 1):
+        if toks[i] in ("struct", "union", "enum") and IDENT_RE.match(toks[i + 1]) and toks[i + 1] not in KEYWORDS:
+            tag = toks[i + 1]
+            if toks[i] == "enum":
+                ok = any(tg == tag for tg, _ in d.enums)
+            else:
+                ok = any(tg == tag and k == ("U" if toks[i] == "union" else "S") for tg, k, _, _ in d.aggs)
+            if not ok and (toks[i], tag) not in res:
+                res.append((toks[i], tag))
+    return res
+
+
+# class name -> (reference parser whose reading the repair must preserve, 'type' | 'verdict', candidates(toks, decls))
 KNOWN = [
-    ("C07/nested-grouping", "py", _repair_nested_grouping),
-    ("C07/qualifier-between-specifiers", "py", _repair_qual_between),
-    ("C07/repeated-signed", "py", _repair_repeated_sign),
-    ("C07/qualifier-in-brackets", "py", _repair_qual_in_brackets),
-    ("C07/trailing-garbage-after-unbalanced", "py", _repair_trailing),
-    ("C07/implicit-int", "py", _repair_implicit_int),
+    ("C07/nested-grouping", "py", "type", _rep_nested_grouping),
+    ("C07/qualifier-between-specifiers", "py", "type", _rep_qual_between),
+    ("C07/repeated-signed", "py", "type", _rep_signed_ignored),
+    ("C07/qualifier-in-brackets", "py", "type", _rep_qual_in_brackets),
+    ("C07/parenthesised-name", "py", "type", _rep_paren_name),
+    ("C07/trailing-garbage-after-unbalanced", "py", "type", _rep_trailing),
+    ("C07/qualifier-first-group", "py", "type", _rep_qual_first_group),
+    ("C07/implicit-int", "py", "type", _rep_implicit_int),
+    ("C07/implicit-int", "py", "type", _rep_no_specifier),
+    ("C07/qualified-void-parameter", "py", "type", _rep_qualified_void),
+    ("C07/binary-literal", "py", "type", _rep_binary_literal),
+    ("C07/function-typedef-parameter", "py", "type", _rep_function_typedef_param),
+    ("C07/ellipsis-as-name", "py", "type", _rep_ellipsis_as_name),
+    ("C07/calling-convention-placement", "py", "type", _rep_abi),
+    ("C07/ellipsis-only", "c", "verdict", _rep_ellipsis_only),
+    ("C07/typedef-name-as-variable", "c", "type", _rep_typedef_as_name),
 ]
-CLASSES = {name: (lambda case, name=name: case.get("class") == name) for name, _, _ in KNOWN}
+OTHER_CLASSES = ["C07/struct-named-by-typedef", "C07/undeclared-tag"]
+CLASSES = {name: (lambda case, name=name: case.get("class") == name)
+           for name in sorted(set(k[0] for k in KNOWN)) + OTHER_CLASSES}
 
 
-def equal_result(a, b, d):
+def equal_result(a, b, d, mode="type", alias=False):
     if a[0] == "err" or b[0] == "err":
         return a[0] == b[0]
-    ta, tb = ctype_tree(a[1], d), ctype_tree(b[1], d)
+    if mode == "verdict":
+        return True
+    ta, tb = ctype_tree(a[1], d, alias=alias), ctype_tree(b[1], d, alias=alias)
     return ta == tb and (has_aggregate(ta) or a[1] is b[1])
 
 
-def classify(s, run_py, run_c, d):
-    """Try to explain a divergence at `s` by known classes: apply repairs (each checked to leave the reading of the
-    class's reference parser unchanged) until the two real parsers agree.  Returns the first class applied or None."""
-    toks, cur, first, side = toks_of(s), s, None, None
-    for _ in range(4):
+class Runner:
+    """Fresh FFIs for one declaration context (optionally with extra declarations)."""
+
+    def __init__(self, ctx, d):
+        self.ctx, self.d = ctx, d
+        self.c = {}
+
+    def py(self, s, extra=""):
+        import cffi
+        import warnings
+        f = cffi.FFI()
+        with warnings.catch_warnings():
+            warnings.simplefilter("ignore")
+            f.cdef(self.d.cdef + extra)
+        return typeof(f, s)
+
+    def cc(self, s, extra=""):
+        if extra not in self.c:
+            self.c[extra] = make_ffis(self.ctx, self.d.cdef + extra)[1]
+        return typeof(self.c[extra], s)
+
+
+def classify(s, run, d, model_matches_c):
+    """Explain a divergence at `s` by known classes, constructively.  Returns (class name | None)."""
+    def agree(x, extra=""):
+        return equal_result(run.py(x, extra), run.cc(x, extra), d, alias=True)
+
+    strict = equal_result(run.py(s), run.cc(s), d)
+    if strict:
+        return "not-reproduced"
+    if agree(s):
+        return "C07/struct-named-by-typedef"        # equal up to the name the in-line FFI gives typedef'd aggregates
+    toks, cur, first, side, extra = toks_of(s), s, None, None, ""
+    und = undeclared_tags(toks, d)
+    if und:
+        # in-line FFIs declare unknown tags implicitly; with the tags declared both must read the same type
+        decl = "".join("enum %s { %s__only };\n" % (tag, tag) if kw == "enum" else "%s %s;\n" % (kw, tag)
+                       for kw, tag in und)
+        a0, a1 = run.py(s), run.py(s, decl)
+        if a0[0] == a1[0] and model_matches_c:
+            if agree(s, decl):
+                return "C07/undeclared-tag"
+            extra, first = decl, "C07/undeclared-tag"
+    for _ in range(8):
         progressed = False
-        for name, ref, rep in KNOWN:
+        for name, ref, mode, rep in KNOWN:
             if side is not None and ref != side:
                 continue
-            new = rep(toks)
-            if new is None or new == toks:
-                continue
-            s2 = join_tokens(new)
-            refrun = run_py if ref == "py" else run_c
-            if not equal_result(refrun(cur), refrun(s2), d):
-                continue          # the repair changed what the reference parser reads: not this class
-            toks, cur, first, side, progressed = new, s2, first or name, ref, True
-            if same_type(run_py(cur), run_c(cur), d)[0]:
-                return first
-            break
+            if ref == "py" and not model_matches_c:
+                continue          # the C parser does not behave as its model here: not a known divergence
+            refrun = run.py if ref == "py" else run.cc
+            for new in rep(toks, d):
+                if new == toks:
+                    continue
+                s2 = join_tokens(new)
+                if not equal_result(refrun(cur, extra), refrun(s2, extra), d, mode):
+                    continue          # the repair changed what the reference parser reads
+                toks, cur, first, side, progressed = new, s2, first or name, ref, True
+                break
+            if progressed:
+                if agree(cur, extra):
+                    return first
+                break
         if not progressed:
             return None
     return None
@@ -870,33 +1103,16 @@ def nontrivial(s):
     return any(t in "*[(" for t in toks) or len(toks) > 1
 
 
-def run_context(ctx, d, strings, lines, expect, oracle_only=False):
+def run_context(ctx, d, strings, lines, expect):
     fi, fc = make_ffis(ctx, d.cdef)
-    fresh = {}
-
-    def fresh_pair():
-        if "p" not in fresh:
-            fresh["p"] = make_ffis(ctx, d.cdef)
-        return fresh["p"]
-
-    def run_py(s):
-        import cffi, warnings
-        f = cffi.FFI()
-        with warnings.catch_warnings():
-            warnings.simplefilter("ignore")
-            f.cdef(d.cdef)
-        return typeof(f, s)
-
-    def run_c(s):
-        return typeof(fresh_pair()[1], s)
-
-    if not oracle_only:
-        lines += d.model_lines()
-        expect += [None] * len(d.model_lines())
+    ml = d.model_lines()
+    lines += ml
+    expect += [None] * len(ml)
     for s, kind, feat in strings:
         case = {"cdef": d.cdef, "s": s, "kind": kind}
         ra, rb = typeof(fi, s), typeof(fc, s)
-        ctx.case((d.idx, s) if nontrivial(s) else None, sample={"s": s, "kind": kind, "in-line": show(ra), "out-of-line": show(rb)})
+        ctx.case((d.idx, s) if nontrivial(s) else None,
+                 sample={"s": s, "kind": kind, "in-line": show(ra), "out-of-line": show(rb)})
         ctx.count("%s:%s" % (kind, "accept" if rb[0] == "ok" else "reject"))
         for f in feat:
             ctx.count("feature:" + f)
@@ -905,61 +1121,61 @@ def run_context(ctx, d, strings, lines, expect, oracle_only=False):
         if ra[0] == "err":
             ctx.count("py-error:" + ra[1])
         agree, why = same_type(ra, rb, d)
-        if not agree:
-            # confirm on fresh FFIs (the in-line FFI remembers implicitly declared tags, both cache strings)
-            ra2, rb2 = run_py(s), run_c(s)
-            agree2, why2 = same_type(ra2, rb2, d)
-            if agree2:
-                ctx.count("divergence-not-reproduced-on-fresh-ffi")
-            else:
-                cls = classify(s, run_py, run_c, d)
-                if cls is not None:
-                    case["class"] = cls
-                    ctx.count("known:" + cls)
-                    ctx.known_hits.setdefault(cls, {"case": case, "detail": why2})
-                    if any(f["class"] == cls for f in ctx.open_findings):
-                        ctx.fail(case, why2)
-                else:
-                    if os.environ.get("VERIF_DEBUG"):
-                        common.log("FAIL %r [%s] %s" % (s, kind, why2))
-                    ctx.fail(case, why2)
-        if not oracle_only:
-            lines.append("typeof " + hx(s))
-            expect.append((case, rb, d))
+        lines.append("typeof " + hx(s))
+        expect.append((case, rb, d, None if agree else why))
 
 
-def compare_model(ctx, out, expect):
-    n0 = len(ctx.disagreements)
-    _compare_model(ctx, out, expect)
-    if os.environ.get("VERIF_DEBUG"):
-        for dd in ctx.disagreements[n0:]:
-            common.log("DISAGREE %r impl=%s model=%s (%s)" % (dd["case"]["s"], dd["impl"], dd["model"], dd["what"]))
+def model_vs_c(o, rb, d):
+    """None if the model's answer `o` matches the C parser's result, else a description."""
+    w = o.split(" ")
+    if rb[0] == "err":
+        if w[0] != "err":
+            return "C parser rejects, model accepts"
+        if w[1] == "Parse" and rb[1] not in ("error", "FFIError"):
+            return "model: parse error, implementation raised another type"
+        if w[1] == "Fuel":
+            return "model ran out of fuel"
+        return None
+    if w[0] != "ok":
+        return "C parser accepts, model rejects"
+    name, hist = unhx(w[1]), w[3] == "1"
+    mtree, _ = words_tree(w, 4)
+    itree = ctype_tree(rb[1], d)
+    if mtree != itree:
+        return "type trees differ: model %r, implementation %r" % (mtree, itree)
+    if not hist and name != rb[1].cname:
+        return "names differ: model %r" % name
+    return None
 
 
-def _compare_model(ctx, out, expect):
+def judge(ctx, out, expect, with_model=True):
+    runners = {}
     for o, e in zip(out, expect):
         if e is None:
             continue
-        case, rb, d = e
-        w = o.split(" ")
-        if rb[0] == "err":
-            if w[0] != "err":
-                ctx.disagree(case, "<%s>" % rb[1], o, "C parser rejects, model accepts")
-            elif w[1] == "Parse" and rb[1] not in ("error", "FFIError"):
-                ctx.disagree(case, "<%s>" % rb[1], o, "model: parse error, implementation raised another type")
-            elif w[1] == "Fuel":
-                ctx.disagree(case, "<%s>" % rb[1], o, "model ran out of fuel")
+        case, rb, d, why = e
+        dis = model_vs_c(o, rb, d)
+        if dis is not None and with_model:
+            ctx.disagree(case, show(rb), o, dis)
+            if os.environ.get("VERIF_DEBUG"):
+                common.log("DISAGREE %r impl=%s model=%s (%s)" % (case["s"], show(rb), o, dis))
+        if why is None:
+            continue
+        run = runners.setdefault(d.idx, Runner(ctx, d))
+        cls = classify(case["s"], run, d, dis is None)
+        if cls == "not-reproduced":
+            ctx.count("divergence-not-reproduced-on-fresh-ffi")
+            continue
+        if cls is not None:
+            case["class"] = cls
+            ctx.count("known:" + cls)
+            ctx.known_hits.setdefault(cls, {"case": case, "detail": why})
+            if any(f["class"] == cls for f in ctx.open_findings):
+                ctx.fail(case, why)
         else:
-            if w[0] != "ok":
-                ctx.disagree(case, rb[1].cname, o, "C parser accepts, model rejects")
-                continue
-            name, pos, hist = unhx(w[1]), int(w[2]), w[3] == "1"
-            mtree, _ = words_tree(w, 4)
-            itree = ctype_tree(rb[1], d)
-            if mtree != itree:
-                ctx.disagree(case, repr(itree), repr(mtree), "type trees differ")
-            elif not hist and name != rb[1].cname:
-                ctx.disagree(case, rb[1].cname, name, "names differ")
+            if os.environ.get("VERIF_DEBUG"):
+                common.log("FAIL %s" % __import__("json").dumps({"cdef": case["cdef"], "s": case["s"], "why": why}))
+            ctx.fail(case, why)
 
 
 def correspond(ctx):
@@ -972,15 +1188,16 @@ def correspond(ctx):
         d = Decls(ctx.rng, i)
         run_context(ctx, d, gen_strings(ctx.rng, d, per), lines, expect)
     out = ctx.driver(lines)
-    compare_model(ctx, out, expect)
+    judge(ctx, out, expect)
 
 
 def search(ctx):
+    lines, expect = [], []
     for i in range(ctx.n(60, 600)):
         d = Decls(ctx.rng, 10000 + i)
-        run_context(ctx, d, gen_strings(ctx.rng, d, 60), [], [], oracle_only=True)
-        if ctx.failures:
-            return
+        run_context(ctx, d, gen_strings(ctx.rng, d, 60), lines, expect)
+    out = ctx.driver(lines)
+    judge(ctx, out, expect, with_model=False)
 
 
 def replay(ctx, obj):
